@@ -15,6 +15,13 @@ open Conv
    Flip to Fix together with the fix: commit in /repo. *)
 let code_variant = Fix
 
+(* which variant of the rule table (side conditions) mirrors the code in /repo:
+     Cur = as shipped (findings rule:{unmerge,merge}-left-shift:rhs-*-overflows-u32);
+     Fix = with patches/0016-fix-egraph-rules-derived-width-fits-u32.diff applied (theorems rule_*_sound_fixed).
+   Flip to Fix together with the fix: commit in /repo. *)
+let rules_variant = Cur
+let rules = rules_v rules_variant
+
 let rec arith_of_sexp (x : Sexp.t) : arith =
   let open Sexp in
   let a = arith_of_sexp in
